@@ -29,6 +29,12 @@ class Proxy:
     def __setattr__(self, n, v):
         setattr(CUR.get(), n, v)
 
+    async def __aenter__(self):                 # `async with mpc:` looks dunder methods up on the type
+        return await CUR.get().__aenter__()
+
+    async def __aexit__(self, et, ev, tb):
+        return await CUR.get().__aexit__(et, ev, tb)
+
 
 class Shim:
     """Seeded per-party replacement for the `secrets` module inside mpyc.runtime / mpyc.thresha."""
@@ -375,6 +381,8 @@ class World:
         self.tasks = None
         self.sched_log = [] if record_sched else None
         self.status = None
+        if _W is not None:
+            _W.dispose()
         if clear_caches:
             clear_type_caches()
         ns.shim.reseed(seed)
@@ -403,6 +411,35 @@ class World:
                 self.loops[i].set_exception_handler(ns.asyncoro.exception_handler)
                 return rt
             self.rts.append(c.run(mk))
+
+    def dispose(self):
+        """Close every still-suspended coroutine of this (finished or abandoned) world *in its own party context*.
+        Otherwise a later garbage collection would run their `finally:` clauses (which restore
+        `runtime._program_counter` through the proxy) in whatever context is current then, i.e. against a party
+        of the next world - a harness artefact that production (one process per party) cannot have."""
+        if getattr(self, '_disposed', False):
+            return
+        self._disposed = True
+        for pid in range(self.m):
+            tasks = list(self.pending_tasks[pid])
+            if self.tasks is not None and pid < len(self.tasks):
+                tasks.append(self.tasks[pid])
+
+            def close_all(tasks=tasks):
+                for tk in tasks:
+                    try:
+                        if not tk.done():
+                            tk.get_coro().close()
+                    except BaseException:
+                        pass
+            try:
+                self.ctx[pid].run(close_all)
+            except BaseException:
+                pass
+            L = self.loops[pid]
+            L.ready.clear()
+            L.timers.clear()
+            L.stopped = True
 
     # ---- monitors' sinks -------------------------------------------------------------------
     def _on_receive(self, proto, pc, result, early):
